@@ -27,12 +27,90 @@ fn wit_dir_bytes(dir: &Path) -> Vec<u8> {
     wit_component::encode(&resolve, pkg).unwrap()
 }
 
+/// A request with several keys (MULTI lines of spec/FsLookup.tla): slots a, b, v are present
+/// (b also as .wat), m and n are absent.  Returns a description of the disagreement, if any.
+fn multi(v: &Value, has_wat: bool) -> Option<String> {
+    let tmp = tempfile::tempdir().unwrap();
+    let deps = tmp.path().join("deps");
+    let a = wat::parse_str(component_wat("slot-a")).unwrap();
+    let b_wasm = wat::parse_str(component_wat("slot-b-wasm")).unwrap();
+    let b_wat = component_wat("slot-b-wat");
+    let vv = wat::parse_str(component_wat("slot-v")).unwrap();
+    write(&deps.join("ns").join("one.wasm"), &a);
+    write(&deps.join("ns").join("two.wasm"), &b_wasm);
+    write(&deps.join("ns").join("two.wat"), b_wat.as_bytes());
+    write(&deps.join("ns").join("three").join("1.0.0.wasm"), &vv);
+    let v1 = semver::Version::parse("1.0.0").unwrap();
+    let v2 = semver::Version::parse("2.0.0").unwrap();
+    let slot = |s: &str| -> (&'static str, Option<&semver::Version>, Option<Vec<u8>>) {
+        match s {
+            "a" => ("ns:one", None, Some(a.clone())),
+            "b" => ("ns:two", None, Some(if has_wat { wat::parse_str(&b_wat).unwrap() } else { b_wasm.clone() })),
+            "v" => ("ns:three", Some(&v1), Some(vv.clone())),
+            "m" => ("ns:gone", None, None),
+            _ => ("ns:lost", Some(&v2), None),
+        }
+    };
+    let req: Vec<&str> = v["req"].as_array().unwrap().iter().map(|x| x.as_str().unwrap()).collect();
+    let mut keys: IndexMap<BorrowedPackageKey<'_>, SourceSpan> = IndexMap::new();
+    for (i, s) in req.iter().enumerate() {
+        let (name, ver, _) = slot(s);
+        keys.insert(BorrowedPackageKey::from_name_and_version(name, ver), SourceSpan::new((10 * i).into(), 3));
+    }
+    let resolver = FileSystemPackageResolver::new(deps.clone(), HashMap::new(), v["strict"].as_bool().unwrap());
+    let got = std::panic::catch_unwind(std::panic::AssertUnwindSafe(|| resolver.resolve(&keys)));
+    let want = &v["expect"];
+    match got {
+        Err(_) => Some("resolve panicked".into()),
+        Ok(Err(Error::UnknownPackage { name, .. })) => {
+            if want["outcome"] != "unknown" {
+                Some(format!("the request fails with unknown package `{name}`; every present key must be returned and missing ones skipped"))
+            } else if name != slot(want["key"].as_str().unwrap()).0 {
+                Some(format!("the unknown package reported is `{name}`, the first missing key of the request is `{}`", slot(want["key"].as_str().unwrap()).0))
+            } else {
+                None
+            }
+        }
+        Ok(Err(e)) => Some(format!("the request fails with {e}")),
+        Ok(Ok(map)) => {
+            if want["outcome"] != "ok" {
+                return Some("the request succeeds although a package is missing in strict mode".into());
+            }
+            let loaded: Vec<&str> = want["loaded"].as_array().unwrap().iter().map(|x| x.as_str().unwrap()).collect();
+            for s in &req {
+                let (name, ver, bytes) = slot(s);
+                let key = BorrowedPackageKey::from_name_and_version(name, ver);
+                match (map.get(&key), loaded.contains(s)) {
+                    (None, true) => return Some(format!("key `{name}` is present on disk but missing from the result")),
+                    (Some(_), false) => return Some(format!("key `{name}` does not exist but is in the result")),
+                    (Some(b), true) if Some(b) != bytes.as_ref() => return Some(format!("key `{name}` got other bytes than its file")),
+                    _ => {}
+                }
+            }
+            if map.len() != loaded.len() {
+                return Some(format!("the result has {} entries, {} keys are present", map.len(), loaded.len()));
+            }
+            None
+        }
+    }
+}
+
 pub fn run(this_build_has_wat: bool) {
     let so = std::io::stdout();
     let mut so = so.lock();
-    let (mut rows, mut findings) = (0usize, 0usize);
+    let (mut rows, mut findings, mut multis) = (0usize, 0usize, 0usize);
     for line in std::io::stdin().lock().lines() {
         let line = line.unwrap();
+        if let Some(b) = line.strip_prefix("<<\"MULTI\", \"").and_then(|r| r.strip_suffix("\">>")) {
+            let v: Value = serde_json::from_str(&b.replace("\\\"", "\"").replace("\\\\", "\\")).unwrap();
+            rows += 1;
+            multis += 1;
+            if let Some(p) = multi(&v, this_build_has_wat) {
+                findings += 1;
+                writeln!(so, "{}", json!({"class": "fs", "what": p, "row": v, "expect": v["expect"]})).unwrap();
+            }
+            continue;
+        }
         let js = match line.strip_prefix("<<\"REPLAY\", \"").and_then(|r| r.strip_suffix("\">>")) {
             Some(b) => b.replace("\\\"", "\"").replace("\\\\", "\\"),
             None => continue,
@@ -64,7 +142,14 @@ pub fn run(this_build_has_wat: bool) {
         let mut expected: HashMap<&str, Vec<u8>> = HashMap::new();
         if r["dir"] == true {
             std::fs::create_dir_all(&cand).unwrap();
-            std::fs::write(cand.join("a.wit"), "package ns:witpkg;\ninterface i { f: func(); }\n").unwrap();
+            if r["decoy"] == true {
+                // a WIT package with a vendored dependency: the package of the directory itself is
+                // what must be returned, not the one found in deps/
+                write(&cand.join("deps").join("types").join("shapes.wit"), b"package dep:types;\ninterface shapes { type s = u32; }\n");
+                std::fs::write(cand.join("a.wit"), "package ns:witpkg;\ninterface i { use dep:types/shapes.{s}; f: func(x: s); }\n").unwrap();
+            } else {
+                std::fs::write(cand.join("a.wit"), "package ns:witpkg;\ninterface i { f: func(); }\n").unwrap();
+            }
             expected.insert("loaded:dir", wit_dir_bytes(&cand));
         }
         if r["wasm"] == true {
@@ -138,5 +223,5 @@ pub fn run(this_build_has_wat: bool) {
             writeln!(so, "{}", json!({"class": "fs", "what": p, "row": r, "expect": want})).unwrap();
         }
     }
-    writeln!(so, "{}", json!({"summary": true, "rows": rows, "findings": findings, "wat_feature": this_build_has_wat})).unwrap();
+    writeln!(so, "{}", json!({"summary": true, "rows": rows, "multi_key_requests": multis, "findings": findings, "wat_feature": this_build_has_wat})).unwrap();
 }
